@@ -38,6 +38,8 @@ class Encoder(object):
         self.natoms = 0
         self.side_nonzero = []    # denominators asserted nonzero (domain of the expression)
         self.declared = set()
+        self.nonzero_done = set()
+        self.invs = []
         self.info = dict(angles=0, atoms=0, nodes=0, divs=0)
         if pi_bounds:
             self.declare(qname('PI'), 'Real')
@@ -87,6 +89,29 @@ class Encoder(object):
         self.info['atoms'] += 1
         return v
 
+    def inv_expr(self, b):
+        """SMT expression for 1/b: product of reciprocal variables of the atomic factors of b"""
+        if tm.isc(b):
+            return num(1 / b.p)
+        if b.op == 'mul':
+            return '(* %s %s)' % (self.inv_expr(b.a[0]), self.inv_expr(b.a[1]))
+        if b.op == 'neg':
+            return '(- %s)' % self.inv_expr(b.a[0])
+        if b.op == 'div':
+            return '(* %s %s)' % (self.expr[b.a[1].id], self.inv_expr(b.a[0]))
+        for rep, v in self.invs:
+            if rep is b:
+                return v
+        for rep, v in self.invs:
+            q = tm.rat_ratio(b, rep, cap=300)
+            if q is not None:
+                return '(* %s %s)' % (num(1 / q), v)
+        v = self.fresh('inv')
+        self.invs.append((b, v))
+        self.asserts.append('(= (* %s %s) 1.0)' % (self.expr[b.id], v))
+        self.side_nonzero.append(b)
+        return v
+
     # ------------------------------------------------------------------------------------------
     def enc(self, root):
         for t in tm.topo([root]):
@@ -129,18 +154,10 @@ class Encoder(object):
         if op == 'neg':
             return '(- %s)' % e[a[0].id]
         if op == 'div':
-            n = 'n%d' % t.id
-            self.declare(n, 'Real')
-            den = e[a[1].id]
             if tm.isc(a[1]):
-                self.asserts.append('(= %s (/ %s %s))' % (n, e[a[0].id], den))
-            else:
-                self.asserts.append('(= (* %s %s) %s)' % (n, den, e[a[0].id]))
-                self.asserts.append('(not (= %s 0.0))' % den)
-                self.side_nonzero.append(a[1])
-                self.info['divs'] += 1
-            self.info['nodes'] += 1
-            return n
+                return self._def(t, '(* %s %s)' % (e[a[0].id], num(1 / a[1].p)))
+            self.info['divs'] += 1
+            return self._def(t, '(* %s %s)' % (e[a[0].id], self.inv_expr(a[1])))
         if op == 'i2r' or op == 'r2i':
             return e[a[0].id]
         if op == 'fn':
@@ -243,11 +260,9 @@ class Encoder(object):
         return v
 
     def _def_div(self, t, x, y):
-        n = 'n%d' % t.id
-        self.declare(n, 'Real')
-        self.asserts.append('(= (* %s %s) %s)' % (n, y, x))
-        self.asserts.append('(not (= %s 0.0))' % y)
-        return n
+        v = self.fresh('inv')
+        self.asserts.append('(= (* %s %s) 1.0)' % (y, v))
+        return self._def(t, '(* %s %s)' % (x, v))
 
     def _pow_axioms(self, a, v):
         base, ex = a
